@@ -18,6 +18,7 @@ import itertools
 import json
 import os
 import random
+import re
 
 from . import common as C
 from . import extract as E
@@ -167,6 +168,34 @@ def run_cli_case(case):
         return None, ""
 
 
+def py_cook(src):
+    """cooked value of the literal in `x := "…"` per the README, or None when this oracle does not apply (indented literals,
+    unicode escapes other than well-formed ones, invalid escapes)"""
+    m = re.match(r'^x := "((?:.|\n)*)"\n$', src)
+    if not m or src.startswith('x := """'):
+        return None
+    c = m.group(1)
+    out = []
+    i = 0
+    while i < len(c):
+        ch = c[i]
+        if ch != "\\":
+            out.append(ch)
+            i += 1
+            continue
+        nxt = c[i + 1:i + 2]
+        if nxt in ("n", "r", "t", "\\", '"'):
+            out.append({"n": "\n", "r": "\r", "t": "\t", "\\": "\\", '"': '"'}[nxt])
+            i += 2
+        elif nxt == "\n":
+            i += 2
+        elif c[i + 1:i + 3] == "\r\n":
+            i += 3
+        else:
+            return None
+    return {"cooked": "".join(out)}
+
+
 # ------------------------------------------------------------------------------------------------
 # S3
 
@@ -258,7 +287,7 @@ def run(report):
     stats["s1_unindent_texts"] = len(texts)
 
     # string literal cooking: escape sequences, unicode escapes, indented strings (model vs parser)
-    COOK = ["a", "\\", "n", "t", "r", "\"", "u", "{", "}", "0", "1", "F", "f", "g", "D", "8", "\n", " ", "\u00e9", "'"]
+    COOK = ["a", "\\", "n", "t", "r", "\"", "u", "{", "}", "0", "1", "F", "f", "g", "D", "8", "\n", " ", "\u00e9", "'", "\r\n"]
     contents = list(G.exhaustive(COOK, 3 if tier == "quick" else 4))
     rngc = random.Random(report.seed ^ 0xc00c)
     contents += ["".join(rngc.choice(COOK) for _ in range(rngc.randint(4, 12))) for _ in range(4000 if tier == "quick" else 60000)]
@@ -297,6 +326,13 @@ def run(report):
             got = {"error": r.get("error")}
         key = got.get("error", "ok")
         cook_out[key] = cook_out.get(key, 0) + 1
+        # the statement's own reading of the escapes (README "Strings"): \n \r \t \\ \" \u{…} and a backslash at the end of
+        # a line - in a file with CRLF line ends that end is `\r\n` - which swallows the line end
+        want = py_cook(t)
+        if want is not None and got != want:
+            report.failure("c11-cook-statement", "a string literal does not cook to what the README defines",
+                           {"op": "compile", "src": t, "impl": got, "readme": want})
+            continue
         if m.get("error") == "UNWRAP-FAILED":
             report.failure("c11-cook-unwrap", "the cooking model reaches the unwrap on this literal", {"op": "compile", "src": t, "impl": got}, no_input=True)
         elif got != m:
